@@ -50,6 +50,7 @@ package netty
 //@   inline
 
 //@ func (*handlerContext).HandleActive
+//@   inline
 //@   requires hc != nil && is(hc.pipeline, *pipeline) && WF(plOf(hc)) && inlist(plOf(hc), hc)
 //@   may_panic true
 //@   loop 0 modifies none
@@ -62,6 +63,7 @@ package netty
 //@   ensures_panic routed: nemitted() == 1 && evis(0, "ActiveHandler.HandleActive")
 
 //@ func (*handlerContext).HandleRead
+//@   inline
 //@   requires hc != nil && is(hc.pipeline, *pipeline) && WF(plOf(hc)) && inlist(plOf(hc), hc)
 //@   may_panic true
 //@   loop 0 modifies none
@@ -74,6 +76,7 @@ package netty
 //@   ensures_panic routed: nemitted() == 1 && evis(0, "InboundHandler.HandleRead")
 
 //@ func (*handlerContext).HandleException
+//@   inline
 //@   requires hc != nil && is(hc.pipeline, *pipeline) && WF(plOf(hc)) && inlist(plOf(hc), hc)
 //@   may_panic true
 //@   loop 0 modifies none
@@ -86,6 +89,7 @@ package netty
 //@   ensures_panic routed: nemitted() == 1 && evis(0, "ExceptionHandler.HandleException")
 
 //@ func (*handlerContext).HandleInactive
+//@   inline
 //@   requires hc != nil && is(hc.pipeline, *pipeline) && WF(plOf(hc)) && inlist(plOf(hc), hc)
 //@   may_panic true
 //@   loop 0 modifies none
@@ -98,6 +102,7 @@ package netty
 //@   ensures_panic routed: nemitted() == 1 && evis(0, "InactiveHandler.HandleInactive")
 
 //@ func (*handlerContext).HandleEvent
+//@   inline
 //@   requires hc != nil && is(hc.pipeline, *pipeline) && WF(plOf(hc)) && inlist(plOf(hc), hc)
 //@   may_panic true
 //@   loop 0 modifies none
@@ -110,6 +115,7 @@ package netty
 //@   ensures_panic routed: nemitted() == 1 && evis(0, "EventHandler.HandleEvent")
 
 //@ func (*handlerContext).HandleWrite
+//@   inline
 //@   requires hc != nil && is(hc.pipeline, *pipeline) && WF(plOf(hc)) && inlist(plOf(hc), hc)
 //@   may_panic true
 //@   loop 0 modifies none
@@ -182,38 +188,50 @@ package netty
 //@ spec func castsOK(c *handlerContext) bool = (c.cast2Active != nil) == impl(c.handler, ActiveHandler) && implies(c.cast2Active != nil, c.cast2Active == c.handler) && (c.cast2Inbound != nil) == impl(c.handler, InboundHandler) && implies(c.cast2Inbound != nil, c.cast2Inbound == c.handler) && (c.cast2Outbound != nil) == impl(c.handler, OutboundHandler) && implies(c.cast2Outbound != nil, c.cast2Outbound == c.handler) && (c.cast2Exception != nil) == impl(c.handler, ExceptionHandler) && implies(c.cast2Exception != nil, c.cast2Exception == c.handler) && (c.cast2Inactive != nil) == impl(c.handler, InactiveHandler) && implies(c.cast2Inactive != nil, c.cast2Inactive == c.handler) && (c.cast2Event != nil) == impl(c.handler, EventHandler) && implies(c.cast2Event != nil, c.cast2Event == c.handler)
 //@ spec func WFcasts(p *pipeline) bool = forall(i, 0, p.size, castsOK(node(p, i)))
 
+// Type invariant of handlerContext: the six cast fields agree with the handler's dynamic type.
+// Established by the only constructor (newHandlerContext#post:casts), and the fields are never
+// stored to elsewhere (scans below), so it holds for every context at all times.
 //@ func newHandlerContext
-//@   inline
+//@   ensures fresh: result != nil && fresh(result)
+//@   ensures fields: result.pipeline == p && result.handler == handler && result.prev == prev && result.next == next
+//@   ensures casts: castsOK(result)
+//@ field handlerContext.handler immutable newHandlerContext
+//@ field handlerContext.pipeline immutable newHandlerContext
+//@ field handlerContext.cast2Active immutable newHandlerContext
+//@ field handlerContext.cast2Inbound immutable newHandlerContext
+//@ field handlerContext.cast2Outbound immutable newHandlerContext
+//@ field handlerContext.cast2Exception immutable newHandlerContext
+//@ field handlerContext.cast2Inactive immutable newHandlerContext
+//@ field handlerContext.cast2Event immutable newHandlerContext
+//@ field handlerContext.* constructed_by newHandlerContext
 
 //@ func NewPipeline
 //@   after exit ghostset node(q, i) = ite(q == as(result, *pipeline), ite(i == 0, as(result, *pipeline).head, as(result, *pipeline).tail), node(q, i))
 //@   after exit ghostset pos(c) = ite(c == as(result, *pipeline).head, 0, ite(c == as(result, *pipeline).tail, 1, pos(c)))
 //@   ensures is(result, *pipeline) && fresh(as(result, *pipeline))
-//@   ensures wf: WF(as(result, *pipeline)) && WFcasts(as(result, *pipeline))
+//@   ensures wf: WF(as(result, *pipeline))
 //@   ensures empty: as(result, *pipeline).size == 2 && as(result, *pipeline).channel == nil
 
 //@ func (*pipeline).addLast
-//@   requires WF(p) && WFcasts(p) && p.size < 1<<40
+//@   requires WF(p) && p.size < 1<<40
 //@   modifies handlerContext.next, handlerContext.prev, pipeline.size, ghost node, ghost pos
 //@   after exit ghostset node(q, i) = ite(q == p && i == p.size-2, p.tail.prev, ite(q == p && i == p.size-1, p.tail, node(q, i)))
 //@   after exit ghostset pos(c) = ite(c == p.tail.prev, p.size-2, ite(c == p.tail, p.size-1, pos(c)))
 //@   ensures wf_ends: WFends(p)
 //@   ensures wf_nodes: WFnodes(p)
 //@   ensures wf_links: WFlinks(p)
-//@   ensures casts: WFcasts(p)
 //@   ensures size: p.size == old(p.size) + 1 && p.tail == old(p.tail) && p.head == old(p.head)
 //@   ensures kept: forall(i, 0, old(p.size)-1, node(p, i) == old(node(p, i)))
 //@   ensures added: node(p, p.size-2).handler == handler && fresh(node(p, p.size-2))
 
 //@ func (*pipeline).addFirst
-//@   requires WF(p) && WFcasts(p) && p.size < 1<<40
+//@   requires WF(p) && p.size < 1<<40
 //@   modifies handlerContext.next, handlerContext.prev, pipeline.size, ghost node, ghost pos
 //@   after exit ghostset pos(c) = ite(c == p.head.next, 1, ite(is(c.pipeline, *pipeline) && as(c.pipeline, *pipeline) == p && pos(c) >= 1 && node(p, pos(c)) == c, pos(c)+1, pos(c)))
 //@   after exit ghostset node(q, i) = ite(q == p && i == 1, p.head.next, ite(q == p && i >= 2, node(q, i-1), node(q, i)))
 //@   ensures wf_ends: WFends(p)
 //@   ensures wf_nodes: WFnodes(p)
 //@   ensures wf_links: WFlinks(p)
-//@   ensures casts: WFcasts(p)
 //@   ensures size: p.size == old(p.size) + 1 && p.tail == old(p.tail) && p.head == old(p.head)
 //@   ensures kept: node(p, 0) == old(node(p, 0)) && forall(i, 1, old(p.size), node(p, i+1) == old(node(p, i)))
 //@   ensures added: node(p, 1).handler == handler && fresh(node(p, 1))
@@ -225,15 +243,19 @@ package netty
 //@   loop 0 decreases len(handlers) - rangeindex
 
 //@ func (*pipeline).AddLast
-//@   requires WF(p) && WFcasts(p) && p.size + len(handlers) < 1<<40
+//@   requires WF(p) && p.size + len(handlers) < 1<<40
 //@   panics_iff exists(k, 0, len(handlers), !admissible(handlers[k]))
 //@   modifies handlerContext.next, handlerContext.prev, pipeline.size, ghost node, ghost pos
-//@   loop 0 invariant wf: WF(p) && WFcasts(p)
+//@   loop 0 invariant wf_ends: WFends(p)
+//@   loop 0 invariant wf_nodes: WFnodes(p)
+//@   loop 0 invariant wf_links: WFlinks(p)
 //@   loop 0 invariant size: p.size == old(p.size) + rangeindex + 1 && p.tail == old(p.tail) && p.head == old(p.head) && -1 <= rangeindex && rangeindex < len(handlers)
 //@   loop 0 invariant kept: forall(i, 0, old(p.size)-1, node(p, i) == old(node(p, i)))
 //@   loop 0 invariant appended: forall(k, 0, rangeindex+1, node(p, old(p.size)-1+k).handler == handlers[k])
 //@   loop 0 decreases len(handlers) - rangeindex
-//@   ensures wf: WF(p) && WFcasts(p)
+//@   ensures wf_ends: WFends(p)
+//@   ensures wf_nodes: WFnodes(p)
+//@   ensures wf_links: WFlinks(p)
 //@   ensures size: p.size == old(p.size) + len(handlers) && p.tail == old(p.tail) && p.head == old(p.head)
 //@   ensures kept: forall(i, 0, old(p.size)-1, node(p, i) == old(node(p, i))) && node(p, p.size-1) == old(p.tail)
 //@   ensures appended: forall(k, 0, len(handlers), node(p, old(p.size)-1+k).handler == handlers[k])
@@ -241,21 +263,142 @@ package netty
 //@   ensures_panic untouched: p.size == old(p.size) && forall(i, 0, p.size, node(p, i) == old(node(p, i)))
 
 //@ func (*pipeline).AddFirst
-//@   requires WF(p) && WFcasts(p) && p.size + len(handlers) < 1<<40
+//@   requires WF(p) && p.size + len(handlers) < 1<<40
 //@   panics_iff exists(k, 0, len(handlers), !admissible(handlers[k]))
 //@   modifies handlerContext.next, handlerContext.prev, pipeline.size, ghost node, ghost pos
-//@   loop 0 invariant wf: WF(p) && WFcasts(p)
+//@   loop 0 invariant wf_ends: WFends(p)
+//@   loop 0 invariant wf_nodes: WFnodes(p)
+//@   loop 0 invariant wf_links: WFlinks(p)
 //@   loop 0 invariant size: p.size == old(p.size) + rangeindex + 1 && p.tail == old(p.tail) && p.head == old(p.head) && -1 <= rangeindex && rangeindex < len(handlers)
 //@   loop 0 invariant kept: node(p, 0) == old(node(p, 0)) && forall(i, 1, old(p.size), node(p, i+rangeindex+1) == old(node(p, i)))
 //@   loop 0 invariant prepended: forall(k, 0, rangeindex+1, node(p, 1+k).handler == handlers[rangeindex-k])
 //@   loop 0 decreases len(handlers) - rangeindex
-//@   ensures wf: WF(p) && WFcasts(p)
+//@   ensures wf_ends: WFends(p)
+//@   ensures wf_nodes: WFnodes(p)
+//@   ensures wf_links: WFlinks(p)
 //@   ensures size: p.size == old(p.size) + len(handlers) && p.tail == old(p.tail) && p.head == old(p.head)
 //@   ensures kept: node(p, 0) == old(node(p, 0)) && forall(i, 1, old(p.size), node(p, i+len(handlers)) == old(node(p, i)))
 //@   ensures prepended: forall(k, 0, len(handlers), node(p, 1+k).handler == handlers[len(handlers)-1-k])
 //@   ensures self: is(result, *pipeline) && as(result, *pipeline) == p
 //@   ensures_panic untouched: p.size == old(p.size) && forall(i, 0, p.size, node(p, i) == old(node(p, i)))
 
+//@ func (*pipeline).AddHandler
+//@   requires WF(p) && p.size + len(handlers) < 1<<40 && position >= -1
+//@   panics_iff exists(k, 0, len(handlers), !admissible(handlers[k])) || position >= p.size
+//@   modifies handlerContext.next, handlerContext.prev, pipeline.size, ghost node, ghost pos
+//@   loop 0 modifies none
+//@   loop 0 invariant walk: inlist(p, curNode) && pos(curNode) == i && 0 <= i && i <= position
+//@   loop 0 decreases position - i
+//@   after store pipeline.size ghostset pos(c) = ite(c == curNode, pos(curNode.prev)+1, ite(is(c.pipeline, *pipeline) && as(c.pipeline, *pipeline) == p && node(p, pos(c)) == c && pos(c) > pos(curNode.prev), pos(c)+1, pos(c)))
+//@   after store pipeline.size ghostset node(q, i) = ite(q == p && i == pos(curNode), curNode, ite(q == p && i > pos(curNode), node(q, i-1), node(q, i)))
+//@   loop 1 modifies handlerContext.next, handlerContext.prev, pipeline.size, ghost node, ghost pos
+//@   loop 1 invariant wf_ends: WFends(p)
+//@   loop 1 invariant wf_nodes: WFnodes(p)
+//@   loop 1 invariant wf_links: WFlinks(p)
+//@   loop 1 invariant size: p.size == old(p.size) + rangeindex + 1 && p.tail == old(p.tail) && p.head == old(p.head) && -1 <= rangeindex && rangeindex < len(handlers) && 0 <= position && position < old(p.size) - 1
+//@   loop 1 invariant cur: inlist(p, curNode) && pos(curNode) == position + rangeindex + 1
+//@   loop 1 invariant before: forall(i, 0, position+1, node(p, i) == old(node(p, i)))
+//@   loop 1 invariant inserted: forall(k, 0, rangeindex+1, node(p, position+1+k).handler == handlers[k])
+//@   loop 1 invariant after: forall(i, position+1, old(p.size), node(p, i+rangeindex+1) == old(node(p, i)))
+//@   loop 1 decreases len(handlers) - rangeindex
+//@   ensures wf_ends: WFends(p)
+//@   ensures wf_nodes: WFnodes(p)
+//@   ensures wf_links: WFlinks(p)
+//@   ensures size: p.size == old(p.size) + len(handlers) && p.tail == old(p.tail) && p.head == old(p.head)
+//@   ensures middle_before: implies(0 <= position && position < old(p.size)-1, forall(i, 0, position+1, node(p, i) == old(node(p, i))))
+//@   ensures middle_inserted: implies(0 <= position && position < old(p.size)-1, forall(k, 0, len(handlers), node(p, position+1+k).handler == handlers[k]))
+//@   ensures middle_after: implies(0 <= position && position < old(p.size)-1, forall(i, position+1, old(p.size), node(p, i+len(handlers)) == old(node(p, i))))
+//@   ensures last_kept: implies(position == -1 || position == old(p.size)-1, forall(i, 0, old(p.size)-1, node(p, i) == old(node(p, i))) && node(p, p.size-1) == old(p.tail))
+//@   ensures last_appended: implies(position == -1 || position == old(p.size)-1, forall(k, 0, len(handlers), node(p, old(p.size)-1+k).handler == handlers[k]))
+//@   ensures self: is(result, *pipeline) && as(result, *pipeline) == p
+//@   ensures_panic untouched: p.size == old(p.size) && forall(i, 0, p.size, node(p, i) == old(node(p, i)))
+
+// ---------------------------------------------------------------------------
+// event entry points of the pipeline: inbound events start at the head, writes at the tail
+//@ func (*pipeline).FireChannelActive
+//@   requires WF(p) && p.channel != nil
+//@   may_panic true
+//@   ensures atmost: nemitted() <= 1
+//@   ensures first: implies(nemitted() == 1, evis(0, "ActiveHandler.HandleActive") && is(evarg(0, 0), *handlerContext) && at(0, inlist(p, as(evarg(0, 0), *handlerContext)) && pos(as(evarg(0, 0), *handlerContext)) > 0 && as(evarg(0, 0), *handlerContext).cast2Active != nil && evrecv(0) == as(evarg(0, 0), *handlerContext).cast2Active && forall(l, 1, pos(as(evarg(0, 0), *handlerContext)), node(p, l).cast2Active == nil)))
+//@   ensures none: implies(nemitted() == 0, forall(l, 1, p.size, node(p, l).cast2Active == nil))
+//@ func (*pipeline).FireChannelRead
+//@   requires WF(p) && p.channel != nil
+//@   may_panic true
+//@   ensures atmost: nemitted() <= 1
+//@   ensures first: implies(nemitted() == 1, evis(0, "InboundHandler.HandleRead") && is(evarg(0, 0), *handlerContext) && evarg(0, 1) == message && at(0, inlist(p, as(evarg(0, 0), *handlerContext)) && pos(as(evarg(0, 0), *handlerContext)) > 0 && as(evarg(0, 0), *handlerContext).cast2Inbound != nil && evrecv(0) == as(evarg(0, 0), *handlerContext).cast2Inbound && forall(l, 1, pos(as(evarg(0, 0), *handlerContext)), node(p, l).cast2Inbound == nil)))
+//@   ensures none: implies(nemitted() == 0, forall(l, 1, p.size, node(p, l).cast2Inbound == nil))
+//@ func (*pipeline).FireChannelException
+//@   requires WF(p) && p.channel != nil
+//@   may_panic true
+//@   ensures atmost: nemitted() <= 1
+//@   ensures first: implies(nemitted() == 1, evis(0, "ExceptionHandler.HandleException") && is(evarg(0, 0), *handlerContext) && evarg(0, 1) == ex && at(0, inlist(p, as(evarg(0, 0), *handlerContext)) && pos(as(evarg(0, 0), *handlerContext)) > 0 && as(evarg(0, 0), *handlerContext).cast2Exception != nil && evrecv(0) == as(evarg(0, 0), *handlerContext).cast2Exception && forall(l, 1, pos(as(evarg(0, 0), *handlerContext)), node(p, l).cast2Exception == nil)))
+//@   ensures none: implies(nemitted() == 0, forall(l, 1, p.size, node(p, l).cast2Exception == nil))
+//@ func (*pipeline).FireChannelInactive
+//@   requires WF(p) && p.channel != nil
+//@   may_panic true
+//@   ensures atmost: nemitted() <= 1
+//@   ensures first: implies(nemitted() == 1, evis(0, "InactiveHandler.HandleInactive") && is(evarg(0, 0), *handlerContext) && evarg(0, 1) == ex && at(0, inlist(p, as(evarg(0, 0), *handlerContext)) && pos(as(evarg(0, 0), *handlerContext)) > 0 && as(evarg(0, 0), *handlerContext).cast2Inactive != nil && evrecv(0) == as(evarg(0, 0), *handlerContext).cast2Inactive && forall(l, 1, pos(as(evarg(0, 0), *handlerContext)), node(p, l).cast2Inactive == nil)))
+//@   ensures none: implies(nemitted() == 0, forall(l, 1, p.size, node(p, l).cast2Inactive == nil))
+//@ func (*pipeline).FireChannelEvent
+//@   requires WF(p) && p.channel != nil
+//@   may_panic true
+//@   ensures atmost: nemitted() <= 1
+//@   ensures first: implies(nemitted() == 1, evis(0, "EventHandler.HandleEvent") && is(evarg(0, 0), *handlerContext) && evarg(0, 1) == event && at(0, inlist(p, as(evarg(0, 0), *handlerContext)) && pos(as(evarg(0, 0), *handlerContext)) > 0 && as(evarg(0, 0), *handlerContext).cast2Event != nil && evrecv(0) == as(evarg(0, 0), *handlerContext).cast2Event && forall(l, 1, pos(as(evarg(0, 0), *handlerContext)), node(p, l).cast2Event == nil)))
+//@   ensures none: implies(nemitted() == 0, forall(l, 1, p.size, node(p, l).cast2Event == nil))
+//@ func (*pipeline).FireChannelWrite
+//@   requires WF(p) && p.channel != nil
+//@   may_panic true
+//@   ensures atmost: nemitted() <= 1
+//@   ensures first: implies(nemitted() == 1, evis(0, "OutboundHandler.HandleWrite") && is(evarg(0, 0), *handlerContext) && evarg(0, 1) == message && at(0, inlist(p, as(evarg(0, 0), *handlerContext)) && pos(as(evarg(0, 0), *handlerContext)) < p.size-1 && as(evarg(0, 0), *handlerContext).cast2Outbound != nil && evrecv(0) == as(evarg(0, 0), *handlerContext).cast2Outbound && forall(l, pos(as(evarg(0, 0), *handlerContext))+1, p.size-1, node(p, l).cast2Outbound == nil)))
+//@   ensures none: implies(nemitted() == 0, forall(l, 0, p.size-1, node(p, l).cast2Outbound == nil))
+
+//@ func (*pipeline).Channel
+//@   requires p != nil
+//@   ensures result == p.channel
+
+// the channel attached to a pipeline/context while events flow is non-nil
+//@ assume iface HandlerContext.Channel
+//@   noevent
+//@   ensures result != nil
+//@ assume iface Channel.RemoteAddr
+//@   noevent
+//@ assume iface Channel.Close
+//@   modifies all
+//@   preserves handlerContext.*, pipeline.*, ghost node, ghost pos
+//@ assume iface Channel.Write1
+//@   modifies all
+//@ assume iface Channel.Writev
+//@   modifies all
+//@ assume iface Channel.ReadFrom
+//@   modifies all
+//@ assume iface Channel.Writer
+//@   ensures result != nil
+
+// C03: an exception forwarded past the last handler closes the channel with that exception
+//@ func (tailHandler).HandleException
+//@   requires ctx != nil
+//@   ensures closes: nemitted() == 1 && evis(0, "Channel.Close") && evarg(0, 0) == ex
+
+// C03/C14/C09: the head of the pipeline maps one outbound message to low-level channel writes by type
+//@ property C03 C14 C09
+//@ spec func isBytes(m Message) bool = is(m, []byte)
+//@ spec func isVec(m Message) bool = is(m, [][]byte)
+//@ spec func isBuf(m Message) bool = is(m, *bytes.Buffer)
+//@ spec func isWriterTo(m Message) bool = !isBytes(m) && !isVec(m) && !isBuf(m) && impl(m, io.WriterTo)
+//@ spec func isReader(m Message) bool = !isBytes(m) && !isVec(m) && !isBuf(m) && !impl(m, io.WriterTo) && impl(m, io.Reader)
+//@ func (headHandler).HandleWrite
+//@   requires ctx != nil
+//@   may_panic true
+//@   ensures single_write_bytes: implies(isBytes(message), nemitted() == 1 && evis(0, "Channel.Write1") && sameslice(evarg(0, 0), as(message, []byte)))
+//@   ensures single_write_vec: implies(isVec(message), nemitted() == 1 && evis(0, "Channel.Writev") && sameslice(evarg(0, 0), as(message, [][]byte)))
+//@   ensures single_write_buffer: implies(isBuf(message), as(message, *bytes.Buffer) != nil && nemitted() == 2 && evis(0, "(*bytes.Buffer).Bytes") && evarg(0, 0) == as(message, *bytes.Buffer) && evis(1, "Channel.Write1") && sameslice(evarg(1, 0), evres(0, 0)))
+//@   ensures writer_to: implies(isWriterTo(message), nemitted() == 2 && evis(0, "Channel.Writer") && evis(1, "io.WriterTo.WriteTo") && evrecv(1) == message && evarg(1, 0) == evres(0, 0))
+//@   ensures reader: implies(isReader(message), nemitted() == 1 && evis(0, "Channel.ReadFrom") && evarg(0, 0) == message)
+//@   ensures supported: isBytes(message) || isVec(message) || isBuf(message) || isWriterTo(message) || isReader(message)
+//@   ensures_panic nothing_else: implies(!isBytes(message) && !isVec(message) && !isBuf(message) && !impl(message, io.WriterTo) && !impl(message, io.Reader), nemitted() == 0)
+//@   ensures_panic bounded: nemitted() <= 2
+
+//@ property C03
 // context accessors
 //@ func (*handlerContext).Channel
 //@   inline
